@@ -139,7 +139,20 @@ impl Prop for C02 {
         match tier { Tier::Quick => 25_000, Tier::Thorough => 1_200_000 }
     }
     fn run_chunk(&self, ctx: &Ctx, indices: &[u64]) -> Vec<RunReport> {
-        let specs: Vec<PipeSpec> = indices.iter().map(|&i| pipeline::generate(seed::run_seed(ctx.base_seed ^ 0xC02, i))).collect();
+        let specs: Vec<PipeSpec> = indices
+            .iter()
+            .map(|&i| {
+                let rs = seed::run_seed(ctx.base_seed ^ 0xC02, i);
+                let mut s = pipeline::generate(rs);
+                // match lengths outside the usual 15..32 (own stream): the command line accepts them,
+                // and the value recorded in `params` is what every other reader decodes with
+                let mut r = seed::Rng::new(rs ^ 0x4D4D);
+                if r.pct(8) {
+                    s.cfg.min_match_len = *r.pick(&[8u32, 10, 12, 14, 33, 36, 40, 48]);
+                }
+                s
+            })
+            .collect();
         run_specs(specs, indices)
     }
     fn replay(&self, _ctx: &Ctx, spec: &Value) -> RunReport {
